@@ -3,6 +3,8 @@ CONSTANTS
   Classes <- Classes4
   Outs <- OutsC02
   Durs = {0, 1, 2, 5}
+  CDurs <- SomeDur
+  EDurs <- SomeDur
   Rets <- RetsC02
   Advs <- AdvsAll
   Decs <- DecsSleep
